@@ -99,13 +99,14 @@ func checkC20(cfg *core.Config) int {
 	var chosen []string
 	n, per, reps := 16, 2, 1
 	if cfg.Thorough() {
-		chosen = all
+		chosen = append(all, "xppp", "xmfp", "xxxx", "xfmm")
 		n, per, reps = 64, 2, 3
 	} else {
-		chosen = []string{"pppp", "mmmm", "ffff"}
+		// x = installed but not executable by the operating system
+		chosen = []string{"pppp", "mmmm", "ffff", "xpfm"}
 		rng := core.Rand(cfg.Seed, "C20")
 		seen := map[string]bool{"pppp": true, "mmmm": true, "ffff": true}
-		for len(chosen) < 8 {
+		for len(chosen) < 9 {
 			c := all[rng.Intn(len(all))]
 			if !seen[c] {
 				seen[c] = true
@@ -149,7 +150,7 @@ func checkC20(cfg *core.Config) int {
 
 	// behavioural half
 	for _, v := range out.Violations {
-		rep.Violatef(v.Signature, "config-"+v.Config, map[string]string{"config.txt": v.Config + " (p=present m=missing f=failing; order goimports,dart,npx,pg_format)\n" + v.Message}, "config %s: %s", v.Config, v.Message)
+		rep.Violatef(v.Signature, "config-"+v.Config, map[string]string{"config.txt": v.Config + " (p=present m=missing f=failing x=installed but cannot be executed; order goimports,dart,npx,pg_format)\n" + v.Message}, "config %s: %s", v.Config, v.Message)
 	}
 	maxOverlap := 0
 	orders := map[string]bool{}
@@ -185,7 +186,7 @@ func checkC20(cfg *core.Config) int {
 	return rep.Finish(core.Evidence{
 		Level:       "exploration",
 		Evaluations: requests + cmdRuns,
-		Rule:        fmt.Sprintf("%d tool configurations (4 tools x present/missing/failing) x %d repetition(s); per run %d goroutines x %d requests released together on one shared generator.Formatters, formats cycling over go/dart/typescript/psql/none; binary built with -race from /repo's working tree; PATH = directory of recording stand-ins. Distinct = distinct (configuration, completion order) pairs observed. Plus %d runs of the real cmd binary (-race) writing >=6 outputs through saveOutputs.", len(chosen), reps, n, per, cmdRuns),
+		Rule:        fmt.Sprintf("%d tool configurations (4 tools x present/missing/failing, plus configurations with a tool that is installed but cannot be executed) x %d repetition(s), each followed on the same cache by one request per present tool after that tool was damaged; per run %d goroutines x %d requests released together on one shared generator.Formatters, formats cycling over go/dart/typescript/psql/none; binary built with -race from /repo's working tree; PATH = directory of recording stand-ins. Distinct = distinct (configuration, completion order) pairs observed. Plus %d runs of the real cmd binary (-race) writing >=6 outputs through saveOutputs.", len(chosen), reps, n, per, cmdRuns),
 		Assumptions: []string{
 			"stand-in tools (harness/cmd/standin) faithfully play present/missing/failing tools: probe = which goimports | dart format --help | npx prettier -v | pg_format -v",
 			"'probed at most once' is per Formatters value; each configuration run uses a fresh one",
